@@ -41,6 +41,13 @@ ASSUMPTIONS = [
     'driver derivatives are compared with the derivative record of the same coordinate (the reader\'s '
     'documented association)',
     'the iteration coordinate format rank0:name|count|... is taken as documented',
+    'a Problem case name the user passes twice to Problem.record() does not identify a case (documented: "Name used '
+    'to identify this Problem case"); look-ups of such cases by name/index and get_cases("problem") are not judged, '
+    'their presence and order in list_cases() is',
+    'a hierarchical coordinate that repeats (successive runs without case_prefix reset the iteration counters) is '
+    'ambiguous as a name: get_case(name) may return any of the cases it denotes; every other query is judged by the '
+    'unique counter and reported under the mechanism prefix repeated-run:coordinate-collision only when the answer '
+    'is of the shape that mechanism produces (same name and source / only names of true descendants)',
 ]
 MIN_JUDGED = {'quick': 40, 'thorough': 800}
 REQUIRED_COUNTERS = ['obs:events', 'obs:cases_read', 'obs:values_compared', 'obs:selection_judged_present',
@@ -311,6 +318,10 @@ def check_file(cr, evs, devs, spec, V, voi, scaled, opts, J, values_equal):
         acc.count('obs:files_with_coordinate_collision')
     cpre = COLL if dup else ''
     ordinal = {e['seq']: i for i, e in enumerate(evs)}
+    # Problem.record(case_name): "Name used to identify this Problem case" - a name the user gives twice does not
+    # identify a case; look-ups of such cases (by name, by index, get_cases('problem')) are not judged.
+    pnames = [n for n, e in zip(exp_names, evs) if e['kind'] == 'problem']
+    pdup = set(n for n in pnames if pnames.count(n) > 1)
 
     # (iii) order of list_cases()
     ok, names = _guard(J, 'list_cases()', cr.list_cases, out_stream=None)
@@ -327,7 +338,10 @@ def check_file(cr, evs, devs, spec, V, voi, scaled, opts, J, values_equal):
 
     # (v) get_case by global index, values, selection
     for i, e in enumerate(evs):
-        ipre = COLL if exp_names.count(exp_names[i]) > 1 else ''
+        if e['kind'] == 'problem' and exp_names[i] in pdup:
+            acc.count('obs:user_duplicated_problem_case_name:lookup_not_judged')
+            continue
+        ipre = COLL if (e['kind'] != 'problem' and exp_names.count(exp_names[i]) > 1) else ''
         acc.count('obs:get_case_index')
         try:
             c = cr.get_case(i)
@@ -338,14 +352,18 @@ def check_file(cr, evs, devs, spec, V, voi, scaled, opts, J, values_equal):
         if not right:
             got = ('raised %s: %s' % (type(exc).__name__, str(exc)[:80])) if exc is not None else \
                 (None if c is None else (c.source, c.name, c.counter))
-            if e['kind'] == 'problem' and not ipre:
+            if e['kind'] == 'problem':
                 key = 'get_case(index):problem:index-not-resolved'
             elif exc is not None:
-                key = ipre + 'get_case(index):%s:raises:%s' % (e['kind'], type(exc).__name__)
-            else:
+                key = 'get_case(index):%s:raises:%s' % (e['kind'], type(exc).__name__)
+            elif ipre and c is not None and c.name == exp_names[i] and _ns(c.source) == _ns(e['source']):
+                # the collision mechanism: the index is resolved through the (repeated) coordinate, so a case of
+                # the same name and source, but of another run, comes back
                 key = ipre + 'get_case(index):%s:wrong-case' % e['kind']
+            else:
+                key = 'get_case(index):%s:wrong-case' % e['kind']
             J.viol(key, 'get_case(%d) returned %s, expected event #%d (%s, %s)' % (i, got, i + 1, e['source'], exp_names[i]))
-            if e['kind'] != 'problem' or ipre:
+            if e['kind'] != 'problem':
                 continue
             # reach the problem case by name so that its contents are still judged
             try:
@@ -365,11 +383,12 @@ def check_file(cr, evs, devs, spec, V, voi, scaled, opts, J, values_equal):
                        'get_case(%r) returned counter %s source %s, expected %d %s'
                        % (exp_names[i], getattr(c2, 'counter', None), getattr(c2, 'source', None), i + 1, e['source']))
         else:
-            ok, c2 = _guard(J, COLL + 'get_case(name)', cr.get_case, exp_names[i])
-            if ok and (c2 is None or c2.counter != i + 1):
-                J.viol(COLL + 'get_case(name)-ambiguous', 'case name %r denotes %d recorded cases; get_case returned '
-                       'counter %s for event #%d' % (exp_names[i], exp_names.count(exp_names[i]),
-                                                      getattr(c2, 'counter', None), i + 1))
+            # a repeated coordinate denotes several cases: any of them is an acceptable answer
+            ok, c2 = _guard(J, 'get_case(name)', cr.get_case, exp_names[i])
+            cand = [k + 1 for k, n in enumerate(exp_names) if n == exp_names[i]]
+            if ok and (c2 is None or c2.counter not in cand):
+                J.viol('get_case(name):%s:wrong-case' % e['kind'], 'case name %r denotes the cases %s; get_case returned '
+                       'counter %s' % (exp_names[i], cand, getattr(c2, 'counter', None)))
 
     # (iv) sources and hierarchy
     exp_sources = sorted(set(e['source'] for e in evs))
@@ -379,10 +398,10 @@ def check_file(cr, evs, devs, spec, V, voi, scaled, opts, J, values_equal):
     for s in exp_sources:
         mine = [e for e in evs if e['source'] == s]
         # recurse=False
-        ok, got = _guard(J, cpre + 'list_cases(source,recurse=False)', cr.list_cases, s, recurse=False, out_stream=None)
+        ok, got = _guard(J, 'list_cases(source,recurse=False)', cr.list_cases, s, recurse=False, out_stream=None)
         acc.count('obs:list_cases_source')
         if ok and list(got) != [expected_name(e) for e in mine]:
-            J.viol(cpre + 'list_cases(source,recurse=False):%s' % evs_kind(mine),
+            J.viol('list_cases(source,recurse=False):%s' % evs_kind(mine),
                    'list_cases(%r, recurse=False)=%s expected %s' % (s, list(got)[:6], [expected_name(e) for e in mine][:6]))
         # recurse=True, flat=True
         if s == 'problem':
@@ -396,23 +415,30 @@ def check_file(cr, evs, devs, spec, V, voi, scaled, opts, J, values_equal):
         flat = [d for grp in exp for d in grp]
         if any(len(g) > 1 for g in exp):
             acc.count('obs:descendant_queries_with_children')
-        ok, got = _guard(J, cpre + 'list_cases(source,recurse=True)', cr.list_cases, s, recurse=True, flat=True,
+        ok, got = _guard(J, 'list_cases(source,recurse=True)', cr.list_cases, s, recurse=True, flat=True,
                          out_stream=None)
         if ok:
             got = list(got)
             want = [expected_name(d) for d in flat]
             if got != want:
                 kind = 'duplicates' if len(got) > len(want) else ('missing' if len(got) < len(want) else 'different')
-                J.viol(cpre + 'list_cases(source,recurse=True)-%s:%s' % (kind, evs_kind(mine)),
+                # the collision mechanism (descendants are looked up through the repeated coordinate of each
+                # source case) can only repeat/drop names of true descendants; a foreign name is something else
+                pre = cpre if (s != 'problem' and set(got) <= set(want)) else ''
+                J.viol(pre + 'list_cases(source,recurse=True)-%s:%s' % (kind, evs_kind(mine)),
                        'list_cases(%r, recurse=True, flat=True) returned %d names, its cases have %d descendants '
                        '(incl. themselves); got %s expected %s' % (s, len(got), len(want), got[:5], want[:5]))
         # get_cases: identity by counter
-        ok, gc = _guard(J, cpre + 'get_cases(source,recurse=True)', cr.get_cases, s, recurse=True, flat=True)
+        if s == 'problem' and pdup:
+            acc.count('obs:user_duplicated_problem_case_name:lookup_not_judged')
+            continue
+        ok, gc = _guard(J, 'get_cases(source,recurse=True)', cr.get_cases, s, recurse=True, flat=True)
         if ok:
             gotc = [c.counter for c in gc]
             wantc = [ordinal[d['seq']] + 1 for d in flat]
             if gotc != wantc:
-                J.viol(cpre + 'get_cases(source,recurse=True):wrong-cases:%s' % evs_kind(mine),
+                pre = cpre if (s != 'problem' and set(c.name for c in gc) <= set(expected_name(d) for d in flat)) else ''
+                J.viol(pre + 'get_cases(source,recurse=True):wrong-cases:%s' % evs_kind(mine),
                        'get_cases(%r, recurse=True, flat=True) counters %s expected %s' % (s, gotc[:8], wantc[:8]))
         # nested: every descendant appears exactly once, when every parent frame of it was recorded
         if s != 'problem' and not dup:
@@ -509,7 +535,8 @@ def check_case(c, e, devs, spec, V, voi, scaled, opts, J, values_equal, name):
             if verdict == 'P':
                 acc.count('obs:selection_judged_present')
                 if a not in got[io]:
-                    J.viol('selection:%s:%s:missing:%s' % (kind, io, reason),
+                    J.viol(('selection:%s:%s:%s:missing' % (reason, kind, io)) if reason.startswith('record_outputs-off:')
+                           else ('selection:%s:%s:missing:%s' % (kind, io, reason)),
                            '%s %s %r must be recorded (%s; options %s) but case %s lacks it'
                            % (kind, io, a, reason, json.dumps(o, sort_keys=True), name))
             elif verdict == 'A':
@@ -543,8 +570,14 @@ def check_case(c, e, devs, spec, V, voi, scaled, opts, J, values_equal, name):
             acc.count('obs:values_compared')
             if not values_equal(val, exp):
                 m = V.get(a, {})
-                tag = 'discrete' if m.get('discrete') else ('scaled-output' if (scaled and m.get('ref')) else 'continuous')
-                J.viol('value:%s:%s:%s' % (kind, io, tag), 'case %s %s %r = %s, model had %s at record time'
+                tag = 'discrete' if m.get('discrete') else 'continuous'
+                vkey = 'value:%s:%s:%s' % (kind, io, tag)
+                raw = snap[io].get(a)
+                if (scaled and io == 'output' and m.get('ref') and kind in ('system', 'solver', 'linesearch')
+                        and raw is not None and values_equal(val, raw)):
+                    # exactly the content of the (scaled) output vector at record time: physical value / ref
+                    vkey = 'value:stored-in-solver-scaled-space:%s:%s' % (kind, io)
+                J.viol(vkey, 'case %s %s %r = %s, model had %s at record time'
                        % (name, io, a, np.asarray(val).tolist() if not isinstance(val, (str, bool)) else val,
                           np.asarray(exp).tolist() if not isinstance(exp, (str, bool)) else exp))
     # errors
@@ -575,7 +608,11 @@ def check_case(c, e, devs, spec, V, voi, scaled, opts, J, values_equal, name):
                 x_case = e['snap']['output'].get(dv)
                 x_der = d['snap']['output'].get(dv)
                 if x_case is not None and x_der is not None and not values_equal(x_case, x_der):
-                    J.viol('derivatives:driver:of-a-different-design-point',
+                    # recorded before the model was even run for this case: the record carries the coordinate of
+                    # the *next* driver iteration
+                    how = 'recorded-before-its-case-at-previous-design-point' if d['seq'] < e['seq'] else \
+                        'of-a-different-design-point'
+                    J.viol('derivatives:driver:%s:%s' % (how, spec['driver']['kind']),
                            'case %s (desvar %s=%s) is shown with total derivatives computed at %s=%s'
                            % (name, dv, x_case.tolist(), dv, x_der.tolist()))
                     break
